@@ -1317,6 +1317,16 @@ fn main() {
         tx_events_left: args.get_u64("tx-events", 220) as usize,
         hdr_events_left: args.get_u64("hdr-events", 40) as usize,
     };
+    // Replay aid: `c03 --probe-hex <tx bytes> [--probe-branch <name>] --out /dev/stdout` runs the generic
+    // byte-string oracle on one input and reports what it sees.
+    if let Some(h) = args.extra.get("probe-hex") {
+        let bytes = hex::decode(h).expect("probe-hex");
+        let branch = args.extra.get("probe-branch").and_then(|b| txgen::branch_from_name(b)).unwrap_or(BranchId::Nu6_3);
+        let r = check_bytes(&mut c, &bytes, branch, "probe", "-", None);
+        c.r.note(format!("probe: parser {}", match r { Some(true) => "accepted", Some(false) => "rejected", None => "panicked" }));
+        c.r.finish();
+        return;
+    }
     let max_cases = args.get_u64("max-cases", if thorough { 60_000 } else { 1_500 }) as usize;
     let mut_budget = args.get_u64("mutants-per-tx", 90) as usize;
 
